@@ -59,7 +59,8 @@ def seen_retry_possible(N: typing.Any) -> bool:
     "C20", "retries",
     quick=[{"flavour": fl, "uds": u, "len": 3, "_pre": pre}
            for fl in ("sync", "async") for u in (False, True)
-           for pre in ("o0 in (0, 3, 6, 7, 8, 9, 10, 11, 12)", "o0 == 1", "o0 == 2", "o0 == 4", "o0 == 5")],
+           for pre in ("o0 in (0, 3, 6, 7, 8, 9, 10, 11, 12)", "o0 == 1", "o0 == 2", "o0 == 4", "o0 == 5")]
+    + [{"flavour": fl, "uds": False, "len": 2, "h2only": True} for fl in ("sync", "async")],
     thorough=[{"flavour": fl, "uds": u, "len": 4, "_pre": f"o0 == {a} and o1 == {b}"}
               for fl in ("sync", "async") for u in (False, True) for a in RETRYABLE for b in RETRYABLE]
     + [{"flavour": fl, "uds": u, "len": 4, "_pre": f"o0 == {a} and o1 in (0, 3, 6, 7, 8, 9, 10, 11, 12)"}
@@ -67,19 +68,20 @@ def seen_retry_possible(N: typing.Any) -> bool:
     + [{"flavour": fl, "uds": u, "len": 4, "_pre": "o0 in (0, 3, 6, 7, 8, 9, 10, 11, 12)"}
        for fl in ("sync", "async") for u in (False, True)]
     # long chains of retryable failures (six scripted attempts), two kinds per position
+    + [{"flavour": fl, "uds": False, "len": 3, "h2only": True} for fl in ("sync", "async")]
     + [{"flavour": fl, "uds": u, "len": 6, "_pre": "o0 in (1, 5) and o1 in (2, 4) and o2 in (1, 5) and o3 in (2, 4) and o4 in (1, 5) and o5 in (0, 2, 10)"}
        for fl in ("sync", "async") for u in (False, True)],
-    example=dict(N=2, o0=1, o1=5, o2=0, o3=0, o4=0, o5=0, late=True, tr=True),
-    require=("all-attempts-fail", "success-after-retry", "non-retryable", "late-failure", "retries-exhausted", "traced"),
+    example=dict(N=2, o0=1, o1=5, o2=0, o3=0, o4=0, o5=0, late=True, tr=True, tc=3, has_tc=True),
+    require=("all-attempts-fail", "success-after-retry", "non-retryable", "late-failure", "retries-exhausted", "traced", "h2only-mismatch"),
     timeout={"quick": 400, "thorough": 1500},
-    symbolic="retries N (unbounded integer >= 0); outcome of each successive connection attempt (13 kinds: success, ConnectError, ConnectTimeout, a foreign exception, ReadError/WriteError, raw OSError/TimeoutError/ssl.SSLError subclasses; TCP/UDS or TLS stage); whether the exchange fails after establishment; whether the request carries a `trace` extension",
-    bounds="up to 3 (quick) / 4 (thorough; 6 for chains of connect errors/timeouts) scripted attempts followed by a succeeding one, https origin over TCP and over a Unix socket, sync and async HTTPConnection via the pool",
+    symbolic="retries N (unbounded integer >= 0); outcome of each successive connection attempt (13 kinds: success, ConnectError, ConnectTimeout, a foreign exception, ReadError/WriteError, raw OSError/TimeoutError/ssl.SSLError subclasses; TCP/UDS or TLS stage); whether the exchange fails after establishment; whether the request carries a `trace` extension; its connect time-out (unbounded integer >= 0, or absent)",
+    bounds="up to 3 (quick) / 4 (thorough; 6 for chains of connect errors/timeouts) scripted attempts followed by a succeeding one, https origin over TCP and over a Unix socket, sync and async HTTPConnection via the pool; one shard family with an HTTP/2-only pool whose server answers ALPN with http/1.1",
     outside="proxied connections (the property is about direct connections); more than 6 attempts",
     stubs=("simulated backend: connect_tcp/connect_unix_socket/start_tls fail as scripted; sleep() only records its argument",),
 )
-def retries(N: int, o0: int, o1: int, o2: int, o3: int, o4: int, o5: int, late: bool, tr: bool) -> None:
+def retries(N: int, o0: int, o1: int, o2: int, o3: int, o4: int, o5: int, late: bool, tr: bool, tc: int, has_tc: bool) -> None:
     """
-    pre: N >= 0
+    pre: N >= 0 and tc >= 0
     pre: 0 <= o0 <= 12 and 0 <= o1 <= 12 and 0 <= o2 <= 12 and 0 <= o3 <= 12 and 0 <= o4 <= 12 and 0 <= o5 <= 12
     post: _
     """
@@ -107,9 +109,19 @@ def retries(N: int, o0: int, o1: int, o2: int, o3: int, o4: int, o5: int, late: 
         return Resp(body=b"ok")
 
     # after the scripted attempts every further attempt succeeds
-    net = Net(lambda net, sock: H1Server(respond=responder),
+    h2only = shard("h2only", False)
+
+    class WrongAlpn(H1Server):
+        """An HTTP/1.1-only server that answers the ALPN offer with its own protocol whatever was offered."""
+
+        def on_tls(self, server_hostname: typing.Any, offered: typing.Any) -> typing.Any:
+            return "http/1.1"
+
+    net = Net(lambda net, sock: (WrongAlpn if h2only else H1Server)(respond=responder),
               connect_outcomes=[lazy(i) for i in range(L)])
     kw: dict[str, typing.Any] = {"retries": N}
+    if h2only:
+        kw.update(http1=False, http2=True)
     if shard("uds", False):
         kw["uds"] = "/run/sim.sock"
     pool = scen.make_pool(is_async, net, **kw)
@@ -129,6 +141,9 @@ def retries(N: int, o0: int, o1: int, o2: int, o3: int, o4: int, o5: int, late: 
 
             ext["trace"] = strace
         P.cover("traced")
+    if has_tc:
+        # a connect time-out on the request limits each attempt, never the pauses between them
+        ext["timeout"] = {"connect": tc}
     o = api.request(pool, "GET", "https://example.com/x", extensions=ext)
 
     attempts, used, final = _expected(seen, N)
@@ -144,10 +159,14 @@ def retries(N: int, o0: int, o1: int, o2: int, o3: int, o4: int, o5: int, late: 
     # pauses 0, 0.5, 1, 2, 4 ... one per retry
     exp_sleeps = [0, 0.5, 1.0, 2.0, 4.0, 8.0][:used]
     P.check(sleeps == exp_sleeps, "backoff-sequence", lambda: f"sleeps:{sleeps}!={exp_sleeps}")
-    if ext:
+    if "trace" in ext:
         n_retry = len([t for t in traced if t == "connection.retry.started"])
         P.check(n_retry == used, "one-retry-trace-event-per-pause", lambda: f"retry-events:{n_retry}!={used}")
-    if final == 0:
+    if final == 0 and h2only:
+        # the connection is established, then the HTTP/2 exchange fails against an HTTP/1.1 server: never retried
+        P.cover("h2only-mismatch")
+        P.check(not o.ok and o.documented(), "failure-after-establishment-reported", lambda: f"h2only:{o.kind()}")
+    elif final == 0:
         P.cover("success-after-retry" if used else "success-first-try")
         if flag["late"]:
             P.cover("late-failure")
